@@ -124,7 +124,7 @@ V(h, d, t) == /\ val' = [val EXCEPT ![h] = d]
 Answer(a, arg, ret, out, either) ==
   obs' = [a |-> a, arg |-> arg,
           exp |-> [ret |-> ret, out |-> out, vals |-> val', lens |-> [g \in H |-> Len(val'[g])],
-                   typs |-> vtyp', frozen |-> "ok", either |-> either],
+                   typs |-> vtyp', frozen |-> "ok", refok |-> "ok", either |-> either],
           \* model diagnostics (never part of a verdict): capacities, sharing
           mdl |-> [sizes |-> [g \in H |-> rec'[g].size],
                    refs |-> [g \in H |-> Cardinality(share'[g])],
@@ -484,6 +484,24 @@ XSetValue(h, d) ==
   /\ Private(h, NewRec(nd, AllocSize(Len(nd)), "c")) /\ V(h, nd, "c") /\ ctr' = ctr + Len(d)
   /\ Answer("xsetvalue", arg, "ok", <<>>, FALSE)
 
+(* slice(array) then shift(n) / trim(n) calls (ops = <<kind, n, kind, n, ...>>, kind 0 = shift, 1 = trim):      *)
+(* the window [off, off+len) always stays inside the array's raw data; shift moves the start (negative:        *)
+(* backwards, at most to 0), trim moves the end (negative: forwards, at most to the data end); a call that      *)
+(* would leave the data is refused and changes nothing.  out = accepted?, off, len after every call.           *)
+WinStep(w, L, k, n) ==        \* w = <<off, len>>
+  IF k = 0
+  THEN IF n >= 0 THEN (IF n <= w[2] THEN <<1, w[1] + n, w[2] - n>> ELSE <<0, w[1], w[2]>>)
+       ELSE (IF -n <= w[1] THEN <<1, w[1] + n, w[2] - n>> ELSE <<0, w[1], w[2]>>)
+  ELSE IF n >= 0 THEN (IF n <= w[2] THEN <<1, w[1], w[2] - n>> ELSE <<0, w[1], w[2]>>)
+       ELSE (IF w[1] + w[2] - n <= L THEN <<1, w[1], w[2] - n>> ELSE <<0, w[1], w[2]>>)
+RECURSIVE WinRun(_, _, _)
+WinRun(w, L, ops) ==
+  IF Len(ops) < 2 THEN <<>>
+  ELSE LET r == WinStep(w, L, ops[1], ops[2]) IN r \o WinRun(<<r[2], r[3]>>, L, SubSeq(ops, 3, Len(ops)))
+XWin(h, ops) ==
+  LET L == IF vtyp[h] = "raw" THEN Len(val[h]) ELSE 0 IN      \* the slice class regards typed content as empty
+  NoChange("xwin", [h |-> h, ops |-> ops], "ok", WinRun(<<0, L>>, L, ops))
+
 (* typed_array<T> / unique_array<T> / pointer_array<T> / map: element units *)
 ETyp == CASE Api = "xptr" -> "p" [] Api = "xmap" -> "kv" [] OTHER -> "y"
 ENc  == Api = "xunique"
@@ -595,7 +613,7 @@ Init ==
   /\ touch = {} /\ ctr = 0
   /\ obs = [a |-> "init", arg |-> [n |-> NH, gran |-> Gran, api |-> Api],
             exp |-> [ret |-> "ok", out |-> <<>>, vals |-> [h \in H |-> <<>>], lens |-> [h \in H |-> 0],
-                     typs |-> [h \in H |-> "none"], frozen |-> "ok", either |-> FALSE],
+                     typs |-> [h \in H |-> "none"], frozen |-> "ok", refok |-> "ok", either |-> FALSE],
             mdl |-> [sizes |-> [h \in H |-> 0], refs |-> [h \in H |-> 1],
                      imm |-> [h \in H |-> FALSE], nc |-> [h \in H |-> FALSE]]]
 
@@ -744,6 +762,10 @@ NextXArr ==
            /\ LET c == SWKeep(h, off, len, esz, nblk) IN
               SliceWrite(h, off, len, nblk, esz, Data(nblk * esz, z), z, c.k, c.compact, c.realloc)
      \/ \E pos \in 0..MaxArg, n \in 0..MaxArg : A /\ BufInsert(h, pos, Fresh(n))
+     \/ \E k1 \in {0, 1}, n1 \in 0..MaxArg, k2 \in {0, 1}, n2 \in (-MaxArg)..MaxArg, k3 \in {0, 1}, n3 \in {-1} :
+           /\ A /\ n2 # 0 /\ Used(h) > 0 /\ rec[h].typ = "raw"
+           /\ Prune => (n1 <= Used(h) /\ k3 = 1 - k2)
+           /\ XWin(h, <<k1, n1, k2, n2, k3, n3>>)
 
 \* typed_array<uint8_t>, unique_array<uint8_t>, pointer_array<T>
 NextXTyped ==
